@@ -338,3 +338,9 @@ impl<T, const N: usize> core::ops::DerefMut for BoxVec<T, N> {
         &mut self.0
     }
 }
+
+impl<const N: usize> FixedString<N> {
+    pub fn with_capacity(_c: usize) -> Self {
+        Self::new()
+    }
+}
